@@ -209,7 +209,6 @@ impl Ignore {
             let (mut igtmp, err) = ig.add_child_path(parent);
             errs.maybe_push(err);
             igtmp.is_absolute_parent = true;
-            igtmp.absolute_base = Some(absolute_base.clone());
             igtmp.has_git =
                 if self.0.opts.require_git && self.0.opts.git_ignore {
                     parent.join(".git").exists()
@@ -222,6 +221,14 @@ impl Ignore {
                 parent.as_os_str().to_os_string(),
                 Arc::downgrade(&ig_arc),
             );
+        }
+        // The parent matchers above are shared between all of the paths
+        // given to `add_parents`, but the absolute base is specific to this
+        // one. So put it on a copy of the innermost parent that isn't cached.
+        if !ig.is_root() {
+            let mut inner = (*ig.0).clone();
+            inner.absolute_base = Some(absolute_base);
+            ig = Ignore(Arc::new(inner));
         }
         (ig, errs.into_error_option())
     }
@@ -461,7 +468,15 @@ impl Ignore {
                 // off of `path`. Overall, this seems a little ham-fisted, but
                 // it does fix a nasty bug. It should do fine until we overhaul
                 // this crate.
-                let dirpath = self.0.dir.as_path();
+                //
+                // N.B. The absolute base corresponds to the directory given
+                // to `add_parents`, i.e., the outermost directory that isn't
+                // an absolute parent. It is not necessarily this directory.
+                let dirpath = self
+                    .parents()
+                    .take_while(|ig| !ig.0.is_absolute_parent)
+                    .last()
+                    .map_or(self.0.dir.as_path(), |ig| ig.0.dir.as_path());
                 let path_prefix = match strip_prefix("./", dirpath) {
                     None => dirpath,
                     Some(stripped_dot_slash) => stripped_dot_slash,
